@@ -28,6 +28,11 @@ EXPLANATION = 'bounded relational symbolic checking (two runs on shared variable
 P, P2, S, S2 = z3.Real('P'), z3.Real('P2'), z3.Real('S'), z3.Real('S2')
 
 
+def prepare(tier):
+    from engine import irsym
+    irsym.prepare()
+
+
 def tasks(tier, seed):
     n = 4 if tier == 'quick' else 6
     nc = 3 if tier == 'quick' else 4
